@@ -8,6 +8,294 @@ set_option autoImplicit false
 
 namespace Py
 
+/-! ### common normal form of comprehensions and append-only loops: `flatComp` -/
+
+/-- the state carried by a loop step, whether it continues or breaks -/
+def stepVal {σ : Type} : ForInStep σ → σ
+  | .yield a => a
+  | .done a => a
+theorem stepVal_yield {σ} (a : σ) : stepVal (ForInStep.yield a) = a := rfl
+theorem stepVal_done {σ} (a : σ) : stepVal (ForInStep.done a) = a := rfl
+
+/-- every element contributes a (possibly empty) chunk; the chunks are concatenated -/
+def flatComp {α β : Type} : List α → (α → M (List β)) → M (List β)
+  | [], _ => pure []
+  | x :: xs, F => do
+    let y ← F x
+    let ys ← flatComp xs F
+    pure (y ++ ys)
+
+/-- a comprehension is a `flatComp` with chunks of length ≤ 1 -/
+theorem listComp_eq_flatComp {α β} (xs : List α) (f : α → M (Option β)) :
+    listComp xs f = flatComp xs (fun x => f x >>= fun o => pure o.toList) := by
+  induction xs with
+  | nil => rfl
+  | cons x xs ih =>
+    simp only [listComp, flatComp, ih, bind_assoc, pure_bind]
+    congr 1; funext o; congr 1; funext ys
+    cases o <;> rfl
+
+/-- a `for` loop whose state is a list (or a string) that every iteration only appends to is a `flatComp`.
+The side condition says exactly that: running the body from `r` is running it from `[]` and appending. -/
+theorem forIn_append_only {α β} (xs : List α) (acc : List β) (B : α → List β → M (ForInStep (List β)))
+    (h : ∀ x r, B x r = B x [] >>= fun s => pure (ForInStep.yield (r ++ stepVal s))) :
+    forIn xs acc B = flatComp xs (fun x => B x [] >>= fun s => pure (stepVal s)) >>= fun ys => pure (acc ++ ys) := by
+  induction xs generalizing acc with
+  | nil => simp [flatComp]
+  | cons x xs ih =>
+    rw [List.forIn_cons, h x acc]
+    simp only [flatComp, bind_assoc, pure_bind, ih]
+    congr 1; funext s; congr 1; funext ys
+    simp
+
+theorem flatComp_map_flatten {α γ} (xs : List α) (F : α → M (List (List γ))) :
+    flatComp xs (fun x => F x >>= fun y => pure y.flatten) = flatComp xs F >>= fun ys => pure ys.flatten := by
+  induction xs with
+  | nil => rfl
+  | cons x xs ih =>
+    simp only [flatComp, ih, bind_assoc, pure_bind, List.flatten_append]
+
+theorem flatten_map_singleton {γ} (l : List γ) : (l.map (fun c => [c])).flatten = l := by
+  induction l with
+  | nil => rfl
+  | cons a l ih => simp [ih]
+
+/-- deforestation: when the rest of the program looks at a list of chunks (e.g. strings) only through its
+concatenation, concatenate per element -/
+theorem flatComp_bind_flatten {α γ δ} (xs : List α) (F : α → M (List (List γ))) (K : List (List γ) → M δ)
+    (h : ∀ ys, K ys = K (ys.flatten.map (fun c => [c]))) :
+    flatComp xs F >>= K = flatComp xs (fun x => F x >>= fun y => pure y.flatten) >>= fun zs => K (zs.map (fun c => [c])) := by
+  rw [flatComp_map_flatten, bind_assoc]
+  congr 1; funext ys
+  rw [pure_bind, ← h]
+
+theorem join_nil_eq_flatten (l : List Str) : join [] l = l.flatten := by
+  unfold join
+  induction l with
+  | nil => rfl
+  | cons a l ih =>
+    cases l with
+    | nil => simp [List.intercalate]
+    | cons b l =>
+      simp only [List.intercalate, List.intersperse] at ih ⊢
+      simp [ih]
+
+/-! ### `flatComp` algebra: pure bodies, maps, fusion -/
+
+theorem flatComp_nil {α β} (F : α → M (List β)) : flatComp [] F = pure [] := rfl
+theorem flatComp_cons {α β} (x : α) (xs : List α) (F : α → M (List β)) :
+    flatComp (x :: xs) F = F x >>= fun y => flatComp xs F >>= fun ys => pure (y ++ ys) := rfl
+
+theorem flatComp_congr {α β} (xs : List α) (F G : α → M (List β)) (h : ∀ x ∈ xs, F x = G x) :
+    flatComp xs F = flatComp xs G := by
+  induction xs with
+  | nil => rfl
+  | cons x xs ih =>
+    rw [flatComp_cons, flatComp_cons, h x (by simp), ih (fun y hy => h y (by simp [hy]))]
+
+/-- a comprehension whose body cannot raise is a pure list function -/
+theorem flatComp_pure {α β} (xs : List α) (g : α → List β) :
+    flatComp xs (fun x => pure (g x)) = pure (xs.flatMap g) := by
+  induction xs with
+  | nil => rfl
+  | cons x xs ih => simp only [flatComp_cons, ih, pure_bind, List.flatMap_cons]
+
+theorem flatComp_flatMap {α β γ} (xs : List α) (g : α → List β) (F : β → M (List γ)) :
+    flatComp (xs.flatMap g) F = flatComp xs (fun x => flatComp (g x) F) := by
+  induction xs with
+  | nil => rfl
+  | cons x xs ih =>
+    rw [List.flatMap_cons, flatComp_cons, ← ih]
+    generalize g x = l
+    induction l with
+    | nil => simp only [flatComp_nil, List.nil_append, pure_bind, bind_pure]
+    | cons a l ihl => simp only [List.cons_append, flatComp_cons, ihl, bind_assoc, pure_bind, List.append_assoc]
+
+theorem flatComp_map {α β γ} (xs : List α) (g : α → β) (F : β → M (List γ)) :
+    flatComp (xs.map g) F = flatComp xs (fun x => F (g x)) := by
+  induction xs with
+  | nil => rfl
+  | cons x xs ih => simp only [List.map_cons, flatComp_cons, ih]
+
+theorem flatMap_singleton_eq_map {α β} (xs : List α) (g : α → β) : xs.flatMap (fun x => [g x]) = xs.map g := by
+  induction xs with
+  | nil => rfl
+  | cons x xs ih => simp [ih]
+
+/-! ### `range(len(xs))` with indexing versus `enumerate(xs)` -/
+
+theorem enumerate_cons {α} (x : α) (xs : List α) (k : Int) : enumerate (x :: xs) k = (k, x) :: enumerate xs (k + 1) := by
+  simp only [enumerate, List.length_cons, List.range_succ_eq_map, List.map_cons, List.map_map, List.zip_cons_cons]
+  congr 2
+  · simp
+  · apply List.map_congr_left
+    intro i _
+    simp only [Function.comp, Int.ofNat_eq_natCast]
+    omega
+
+theorem listGet_append_length {α} (pre : List α) (x : α) (xs : List α) :
+    listGet (pre ++ x :: xs) (pre.length : Int) = pure x := by
+  have : ¬ ((pre.length : Int) < 0) := by omega
+  simp [listGet, normIndex, this]
+
+theorem flatComp_range2_getItem {α β} (pre xs : List α) (F : Int → α → M (List β)) :
+    flatComp ((List.range' pre.length xs.length).map Int.ofNat) (fun i => listGet (pre ++ xs) i >>= fun v => F i v)
+      = flatComp (enumerate xs pre.length) (fun p => F p.1 p.2) := by
+  induction xs generalizing pre with
+  | nil => rfl
+  | cons x xs ih =>
+    have h := ih (pre ++ [x])
+    simp only [List.length_append, List.length_cons, List.length_nil, List.append_assoc, List.cons_append, List.nil_append,
+      zero_add] at h
+    simp only [List.length_cons, List.range'_succ, List.map_cons, flatComp_cons, enumerate_cons]
+    rw [h]
+    simp only [Int.ofNat_eq_natCast, listGet_append_length, pure_bind]
+    congr 2
+
+/-- `[… for i in range(len(xs))]` reading `xs[i]` first is `[… for i, v in enumerate(xs)]` -/
+theorem flatComp_range_getItem {α β} (xs : List α) (F : Int → α → M (List β)) :
+    flatComp (range (xs.length : Int)) (fun i => getItem xs i >>= fun v => F i v)
+      = flatComp (enumerate xs (0 : Int)) (fun p => F p.1 p.2) := by
+  have h := flatComp_range2_getItem [] xs F
+  simp only [List.length_nil, List.nil_append] at h
+  simpa [range, List.range_eq_range', getItem] using h
+
+/-! ### `startswith` / `endswith` as slice comparisons -/
+
+theorem startswith_eq_slice (s p : Str) :
+    startswith s p = pyEq (slice s Option.none (some (p.length : Int))) p := by
+  simp only [startswith, pyEq, PyCmp.eq, slice, clampIndex]
+  rw [Bool.eq_iff_iff]
+  simp only [List.isPrefixOf_iff_prefix, decide_eq_true_eq, List.drop_zero]
+  have : ¬ ((p.length : Int) < 0) := by omega
+  simp only [this, if_false, Int.toNat_natCast]
+  have e : List.take (min p.length s.length) s = List.take p.length s := by
+    rcases le_total p.length s.length with h | h
+    · rw [min_eq_left h]
+    · rw [min_eq_right h, List.take_of_length_le h, List.take_of_length_le (le_refl _)]
+  rw [List.prefix_iff_eq_take, e]
+  exact eq_comm
+
+theorem endswith_eq_slice (s : Str) (c : Char) (cs : Str) :
+    endswith s (c :: cs) = pyEq (slice s (some (-((cs.length : Int) + 1))) Option.none) (c :: cs) := by
+  simp only [endswith, pyEq, PyCmp.eq, slice, clampIndex]
+  rw [Bool.eq_iff_iff]
+  simp only [List.isSuffixOf_iff_suffix, decide_eq_true_eq, List.take_length]
+  have : (-((cs.length : Int) + 1) < 0) := by omega
+  simp only [this, if_true]
+  rw [List.suffix_iff_eq_drop]
+  have e : (-((cs.length : Int) + 1) + (s.length : Int)).toNat = s.length - (c :: cs).length := by
+    simp only [List.length_cons]; omega
+  rw [e]
+  exact eq_comm
+
+/-! ### two loops over the same list that differ in what they do at `break` versus after the loop -/
+
+/-- outcome of one iteration of two loop bodies, relative to the two continuations `K1`, `K2` of the loops: both raise the
+same exception, or both continue with the same state, or both break with states that make the rest of the program agree -/
+def stepRel {σ γ : Type} (K1 K2 : σ → M γ) : M (ForInStep σ) → M (ForInStep σ) → Prop
+  | .error e, .error e' => e = e'
+  | .ok (.yield a), .ok (.yield b) => a = b ∧ K1 a = K2 a
+  | .ok (.done a), .ok (.done b) => K1 a = K2 b
+  | _, _ => False
+
+theorem stepRel_yield {σ γ} (K1 K2 : σ → M γ) (a b : σ) :
+    stepRel K1 K2 (pure (ForInStep.yield a)) (pure (ForInStep.yield b)) ↔ (a = b ∧ K1 a = K2 a) := Iff.rfl
+theorem stepRel_done {σ γ} (K1 K2 : σ → M γ) (a b : σ) :
+    stepRel K1 K2 (pure (ForInStep.done a)) (pure (ForInStep.done b)) ↔ K1 a = K2 b := Iff.rfl
+theorem stepRel_ok_yield {σ γ} (K1 K2 : σ → M γ) (a b : σ) :
+    stepRel K1 K2 (Except.ok (ForInStep.yield a)) (Except.ok (ForInStep.yield b)) ↔ (a = b ∧ K1 a = K2 a) := Iff.rfl
+theorem stepRel_ok_done {σ γ} (K1 K2 : σ → M γ) (a b : σ) :
+    stepRel K1 K2 (Except.ok (ForInStep.done a)) (Except.ok (ForInStep.done b)) ↔ K1 a = K2 b := Iff.rfl
+theorem stepRel_error {σ γ} (K1 K2 : σ → M γ) (e e' : Err) :
+    stepRel K1 K2 (Except.error e) (Except.error e') ↔ e = e' := Iff.rfl
+theorem stepRel_bind {σ γ β} (K1 K2 : σ → M γ) (a : M β) (k1 k2 : β → M (ForInStep σ))
+    (h : ∀ v, stepRel K1 K2 (k1 v) (k2 v)) : stepRel K1 K2 (a >>= k1) (a >>= k2) := by
+  cases a with
+  | error e => exact rfl
+  | ok v => exact h v
+
+theorem forIn_bind_congr_cont {α σ γ} (xs : List α) (s0 : σ) (B1 B2 : α → σ → M (ForInStep σ)) (K1 K2 : σ → M γ)
+    (h0 : K1 s0 = K2 s0)
+    (h : ∀ x s, K1 s = K2 s → stepRel K1 K2 (B1 x s) (B2 x s)) :
+    forIn xs s0 B1 >>= K1 = forIn xs s0 B2 >>= K2 := by
+  induction xs generalizing s0 with
+  | nil => simpa using h0
+  | cons x xs ih =>
+    have hx := h x s0 h0
+    rw [List.forIn_cons, List.forIn_cons]
+    generalize B1 x s0 = r1 at hx
+    generalize B2 x s0 = r2 at hx
+    match r1, r2, hx with
+    | .error e, .error e', hx => cases (show e = e' from hx); rfl
+    | .ok (.yield a), .ok (.yield b), hx =>
+      obtain ⟨rfl, hk⟩ := (show a = b ∧ K1 a = K2 a from hx)
+      exact ih a hk
+    | .ok (.done a), .ok (.done b), hx => exact (show K1 a = K2 b from hx)
+
+theorem forIn_congr_cont {α σ} (xs : List α) (s0 : σ) (B1 B2 : α → σ → M (ForInStep σ))
+    (h : ∀ x s, stepRel (pure : σ → M σ) pure (B1 x s) (B2 x s)) :
+    forIn xs s0 B1 = forIn xs s0 B2 := by
+  have := forIn_bind_congr_cont xs s0 B1 B2 pure pure rfl (fun x s _ => h x s)
+  simpa only [bind_pure] using this
+
+theorem stepRel_bind_congr {σ γ β} (K1 K2 : σ → M γ) (a1 a2 : M β) (k1 k2 : β → M (ForInStep σ))
+    (ha : a1 = a2) (h : ∀ v, stepRel K1 K2 (k1 v) (k2 v)) : stepRel K1 K2 (a1 >>= k1) (a2 >>= k2) := by
+  subst ha; exact stepRel_bind K1 K2 a1 k1 k2 h
+
+theorem bind_congr_both {β γ} (a1 a2 : M β) (k1 k2 : β → M γ) (ha : a1 = a2) (h : ∀ v, k1 v = k2 v) :
+    a1 >>= k1 = a2 >>= k2 := by
+  subst ha; exact bind_congr h
+
+/-! ### comparisons: one spelling -/
+theorem pyLe_eq_not_pyGt {α β} [PyCmp α β] (a : α) (b : β) : pyLe a b = !pyGt a b := rfl
+theorem pyGe_eq_not_pyLt {α β} [PyCmp α β] (a : α) (b : β) : pyGe a b = !pyLt a b := rfl
+theorem pyNe_eq_not_pyEq {α β} [PyCmp α β] (a : α) (b : β) : pyNe a b = !pyEq a b := rfl
+
+theorem ite_bind {α β} (c : Prop) [Decidable c] (a b : M α) (k : α → M β) :
+    (if c then a else b) >>= k = if c then a >>= k else b >>= k := by
+  split <;> rfl
+
+theorem ite_eq_false {α} (b : Bool) (x y : α) : (if b = false then x else y) = if b = true then y else x := by
+  cases b <;> rfl
+
+-- the normal-form simp set
+open Lean.Parser.Tactic in
+syntax "py_norm" "[" simpLemma,* "]" : tactic
+open Lean in
+macro_rules
+  | `(tactic| py_norm [$eqs,*]) => do
+    let base ← `(tactic| simp only [Py.ok_bind, Py.error_bind, Py.throw_eq_error, pure_bind, bind_assoc, bind_pure, ite_bind,
+        pyIter_list, pyAdd_list, pyAdd_int, pyLen_list,
+        listComp_eq_flatComp, forIn_append_only, flatComp_bind_flatten, join_nil_eq_flatten, flatten_map_singleton,
+        stepVal_yield, stepVal_done,
+        List.append_assoc, List.nil_append, List.append_nil, List.flatten_append, List.flatten_cons, List.flatten_nil,
+        Option.toList_some, Option.toList_none, implies_true, Bool.not_eq_true', Bool.not_eq_eq_eq_not, Bool.not_true, Bool.not_false,
+        ite_not, ite_eq_false, pyLe_eq_not_pyGt, pyGe_eq_not_pyLt, pyNe_eq_not_pyEq,
+        flatComp_pure, flatComp_flatMap, flatComp_map, flatComp_cons, flatComp_nil, flatMap_singleton_eq_map, flatComp_range_getItem,
+        startswith_eq_slice, endswith_eq_slice, List.length_cons, List.length_nil, Nat.cast_ofNat, Nat.cast_zero, Nat.cast_add, Nat.cast_one,
+        zero_add, Nat.reduceAdd, Int.reduceAdd, Int.reduceNeg, Prod.mk.eta, List.map_id'])
+    match base with
+    | `(tactic| simp only [$ls,*]) =>
+      let all := eqs.getElems.foldl (fun acc e => acc.push ⟨e.raw⟩) ls.getElems
+      `(tactic| simp only [$all,*])
+    | _ => Macro.throwUnsupported
+
+-- structural descent for what normalisation leaves: same-shaped programs whose loops differ at `break` / after the loop
+macro "py_descend" : tactic =>
+  `(tactic| repeat' (first
+      | rfl
+      | (intro _)
+      | (apply forIn_bind_congr_cont)
+      | (apply forIn_congr_cont)
+      | (apply stepRel_bind)
+      | (apply bind_congr)
+      | (simp_all [stepRel_yield, stepRel_done, stepRel_error, stepRel_ok_yield, stepRel_ok_done]; done)
+      | split
+      | (simp only [stepRel_yield, stepRel_done, stepRel_error, true_and])
+      | (apply stepRel_bind_congr)
+      | (apply bind_congr_both)))
+
 -- `py_equiv [eqs]`: normalise both sides with the callee equalities and the idiom lemmas, then close by reflexivity
 open Lean.Parser.Tactic in
 syntax "py_equiv" "[" simpLemma,* "]" : tactic
@@ -16,6 +304,7 @@ macro_rules
     `(tactic| first
         | (simp only [$eqs,*]; rfl)
         | (simp only [$eqs,*, Py.ok_bind, Py.error_bind, Py.pure_eq_ok, Py.throw_eq_error, pyIter_list, pyAdd_list, pyAdd_int, pyLen_list]; rfl)
+        | (py_norm [$eqs,*]; first | done | rfl | (py_descend; done))
         | (simp [$eqs,*]))
 
 end Py
